@@ -28,6 +28,11 @@ def check(tier, seed):
                      "machine-checked, so outputs are carried to outputs (PV.natural); the asymmetric treatment of upper and lower blocks, of block 0 and of the last "
                      "block in the code is immaterial because the characterisation (unitarity, elimination, gauge) is symmetric.  Shift and scaling are separate "
                      "machine-checked corollaries.  The code-level obligations are those on the masks, flags and solver, discharged on the real code in this run.")
+    d.add_callsite_witness("callsite:scale/shared-eigenvalue-test-is-scale-covariant", "bd_battery.py", "scale_finding",
+                           "the shared-eigenvalue test that guards every off-diagonal solve is covariant under scaling of the whole Hamiltonian (it holds for the atol part only up to "
+                           "the documented absolute tolerance; the np.isclose part has an absolute tolerance of its own); the witness is replayed on every run")
+    d.add_callsite_witness("callsite:shift/kpm-rescale-accepts-shifted-spectra", "bd_battery.py", "kpm_shift_finding",
+                           "the KPM solver accepts H_0 + c for every shift c within the property's quantifier (gap/|energy| > 1e-5); the witness is replayed on every run")
     d.run_battery("rel_battery.py", ["covariance"], "8 layouts (<= 3 blocks, n <= 5, full and selective diagonalization, Hermitian and non-Hermitian-exact), all block "
                   "relabellings, one random state permutation, random unitaries inside degenerate levels, conjugation, 2 shifts, 2 scales, direct sum with a 3-level system; orders <= 3")
     d.run_battery("rel_battery.py", ["covariance_implicit"], "implicit mode with the direct solver, n = 9 (+7), 3 (+2) explicit levels, real / complex: 3 permutations of the explicit "
